@@ -1,5 +1,6 @@
 import ZapVerif.Proofs.Bws
 import ZapVerif.Proofs.BwsConc
+import ZapVerif.Proofs.BwsConcBytes
 import ZapVerif.Model.BwsSkel
 import ZapVerif.Gen.BwsFacts
 import ZapVerif.Proofs.TransLocked
@@ -493,6 +494,338 @@ theorem waits_outside_mu :
   decide
 
 end Conc
+
+/-! # Part 3 — the thread machine with bytes refines the sequential model
+
+`Model/BwsConcBytes.lean`: the machine of Part 2 carrying the byte-level state of Part 1; every critical section of
+`s.mu` executes its effect (`Bws.write`, `Bws.sync`, the first section of `Stop`) as one step.  `conc_refines_seq` is the
+linearizability statement; the corollaries carry Part 1 over to ALL interleavings.  `d0` is the syncer nobody has
+touched yet (`Bws.mk size wo so`: size, scripted sink). -/
+namespace ConcBytes
+open ZapVerif ZapVerif.Bws ZapVerif.BwsCB
+
+/-- **linearizability**: for every schedule `acts` of the repaired machine that can run, with `s` the state reached:
+    the linearization of the schedule — its critical sections in the order they acquired `s.mu`, a function of the
+    schedule — is the list `s.hist` of completed sections followed by the at most one section in flight; the byte-level
+    state (sink calls, bufio buffer, sticky error, scripts) is exactly what the sequential model computes by running the
+    completed sections in that order; and every completed section returned what the sequential model returns there -/
+theorem conc_refines_seq (cfg : BwsConc.Cfg) (hlw : cfg.lockedWait = false) (d0 : Bws.St) (h0 : Fresh d0)
+    (acts : List Act) (s : BwsCB.St) (h : runActs cfg (init d0) acts = some s) :
+    linearization cfg d0 acts = s.hist ++ inflight s ∧
+    (inflight s).length ≤ 1 ∧ (s.c.mu = .free → inflight s = []) ∧
+    s.d = lrun d0 (ops s.hist) ∧
+    s.rets = lrets d0 (ops s.hist) := by
+  have hJ := J_reach cfg hlw d0 h0 s ⟨acts, h⟩
+  refine ⟨by simp only [linearization, h]; exact hJ.lin, ?_, ?_, hJ.data, hJ.rets⟩
+  · unfold inflight; split <;> simp
+  · intro hf; simp [inflight, hf]
+
+/-- the linearization only grows along a schedule, by exactly the section that acquired the mutex in that step -/
+theorem linearization_step (cfg : BwsConc.Cfg) (s s' : BwsCB.St) (a : Act) (h : BwsCB.step cfg s a = some s') :
+    s'.acqs = s.acqs ∨ ∃ w o, s'.acqs = s.acqs ++ [(w, o)] ∧ s.c.mu = .free := by
+  unfold BwsCB.step at h
+  cases hc : BwsConc.step cfg s.c a.ctl with
+  | none => rw [hc] at h; cases h
+  | some c' =>
+    rw [hc] at h; injection h with h; subst h
+    cases a with
+    | write i bs => exact Or.inl rfl
+    | sync i => exact Or.inl rfl
+    | stop i => exact Or.inl rfl
+    | tick => exact Or.inl rfl
+    | client i =>
+      simp only [Act.ctl, BwsConc.step] at hc
+      simp only [effect]
+      cases hpc : s.c.cl i <;> simp only [BwsConc.cstep, hpc] at hc ⊢
+      all_goals (first
+        | exact Or.inl trivial
+        | exact Or.inl rfl
+        | (cases hc; done)
+        | (split at hc
+           · exact Or.inr ⟨_, _, rfl, by assumption⟩
+           · cases hc))
+    | loop =>
+      simp only [Act.ctl, BwsConc.step] at hc
+      simp only [effect]
+      cases hl : s.c.loop <;> simp only [BwsConc.lstep, hl] at hc ⊢
+      all_goals (first
+        | exact Or.inl trivial
+        | exact Or.inl rfl
+        | (cases hc; done)
+        | (split at hc
+           · exact Or.inr ⟨_, _, rfl, by assumption⟩
+           · cases hc))
+
+/-- completed sections are never reordered or dropped: `hist` only grows, at the end.  In particular a `Write` that
+    had returned before some `Sync` call started is in `hist` then, hence among the sections that acquired the mutex
+    before that `Sync`'s section (`sync_flushes_conc`): real-time order is respected by the linearization -/
+theorem hist_monotone (cfg : BwsConc.Cfg) (s s' : BwsCB.St) (a : Act) (h : BwsCB.step cfg s a = some s') :
+    s.hist <+: s'.hist := by
+  unfold BwsCB.step at h
+  cases hc : BwsConc.step cfg s.c a.ctl with
+  | none => rw [hc] at h; cases h
+  | some c' =>
+    rw [hc] at h; injection h with h; subst h
+    cases a with
+    | write i bs => exact List.prefix_refl _
+    | sync i => exact List.prefix_refl _
+    | stop i => exact List.prefix_refl _
+    | tick => exact List.prefix_refl _
+    | client i =>
+      simp only [effect]
+      split <;> first | exact List.prefix_refl _ | exact List.prefix_append _ _
+    | loop =>
+      simp only [effect]
+      split <;> first | exact List.prefix_refl _ | exact List.prefix_append _ _
+
+theorem hist_monotone_run (cfg : BwsConc.Cfg) (acts : List Act) : ∀ (s s' : BwsCB.St), runActs cfg s acts = some s' →
+    s.hist <+: s'.hist := by
+  induction acts with
+  | nil => intro s s' h; simp only [runActs] at h; injection h with h; subst h; exact List.prefix_refl _
+  | cons a as ih =>
+    intro s s' h
+    simp only [runActs] at h
+    cases hs : BwsCB.step cfg s a with
+    | none => rw [hs] at h; cases h
+    | some t => rw [hs] at h; exact (hist_monotone cfg s t a hs).trans (ih t s' h)
+
+/-- sequential histories are the special case of one goroutine: Part 1's `run` is `lrun` of the expanded history -/
+theorem seq_is_linearized (s : Bws.St) (os : List Bws.Op) : lrun s (expand s os) = Bws.run s os := lrun_expand os s
+
+/-- everything Part 2 proves about the control skeleton holds for the machine with bytes: its control projection is
+    reachable there, and a step is enabled exactly when its control part is (bytes never block) -/
+theorem control_is_part2 (cfg : BwsConc.Cfg) (d0 : Bws.St) (s : BwsCB.St) (h : Reach cfg d0 s) :
+    BwsConc.Reach cfg s.c ∧ ∀ a, (BwsCB.step cfg s a).isSome = (BwsConc.step cfg s.c a.ctl).isSome :=
+  ⟨reach_ctl cfg d0 s h, step_isSome cfg s⟩
+
+/-- hence no deadlock with bytes either -/
+theorem no_deadlock_bytes (cfg : BwsConc.Cfg) (hlw : cfg.lockedWait = false) (d0 : Bws.St) (s : BwsCB.St) (h : Reach cfg d0 s)
+    (hq : ¬ BwsConc.Quiescent s.c) : ∃ a s', a.internal = true ∧ BwsCB.step cfg s a = some s' := by
+  obtain ⟨a, c', ha, hs⟩ := Conc.no_deadlock cfg hlw s.c (reach_ctl cfg d0 s h) hq
+  have lift : ∀ b : Act, b.ctl = a → ∃ s', b.internal = true ∧ BwsCB.step cfg s b = some s' := by
+    intro b hb
+    have : (BwsCB.step cfg s b).isSome = true := by rw [step_isSome, hb, hs]; rfl
+    cases hst : BwsCB.step cfg s b with
+    | none => rw [hst] at this; cases this
+    | some t => exact ⟨t, by simp [Act.internal, hb, ha], rfl⟩
+  cases a with
+  | client i => obtain ⟨t, h1, h2⟩ := lift (.client i) rfl; exact ⟨_, t, h1, h2⟩
+  | loop => obtain ⟨t, h1, h2⟩ := lift .loop rfl; exact ⟨_, t, h1, h2⟩
+  | write i => cases ha
+  | sync i => cases ha
+  | stop i => cases ha
+  | tick => cases ha
+
+/-! ## Part 1 for all interleavings -/
+
+/-- **stream invariant, all interleavings, any sink**: at every reachable state what the sink took followed by the
+    buffer is the concatenation of the accepted parts of the Writes, in the order their sections acquired the mutex -/
+theorem stream_inv_conc (cfg : BwsConc.Cfg) (hlw : cfg.lockedWait = false) (size : Int) (wo : List WOut) (so : List Bool)
+    (s : BwsCB.St) (h : Reach cfg (mk size wo so) s) :
+    taken s.d.sink ++ s.d.buf = laccepted (mk size wo so) (ops s.hist) := by
+  have hJ := J_reach cfg hlw _ (fresh_mk size wo so) s h
+  have := content_lrun (ops s.hist) (mk size wo so) (wf_mk size wo so)
+  rw [← hJ.data] at this
+  simpa [content, mk] using this
+
+/-- **bounded buffering, all interleavings** -/
+theorem bounded_conc (cfg : BwsConc.Cfg) (hlw : cfg.lockedWait = false) (size : Int) (wo : List WOut) (so : List Bool)
+    (s : BwsCB.St) (h : Reach cfg (mk size wo so) s) : s.d.buf.length ≤ effSize size := by
+  have hJ := J_reach cfg hlw _ (fresh_mk size wo so) s h
+  have hb := hJ.wf.bound
+  have hs : s.d.size = effSize size := by rw [hJ.data, lrun_size _ _ (wf_mk size wo so)]; rfl
+  rw [hs] at hb; exact hb
+
+/-- **whole writes, all interleavings** (reliable sink): the Writes, in acquisition order, are cut into contiguous
+    groups; every sink write is the concatenation of one group — no goroutine's write is ever split or interleaved with
+    another's — and the buffer holds the Writes after the last group -/
+theorem whole_writes_conc (cfg : BwsConc.Cfg) (hlw : cfg.lockedWait = false) (size : Int) (so : List Bool)
+    (s : BwsCB.St) (h : Reach cfg (mk size [] so) s) :
+    ∃ (groups : List (List Bytes)) (pending : List Bytes),
+      lwritesOf (ops s.hist) = groups.flatten ++ pending ∧
+      sinkWrites s.d.sink = groups.map List.flatten ∧ s.d.buf = pending.flatten := by
+  have hJ := J_reach cfg hlw _ (fresh_mk size [] so) s h
+  have R := rinv_lrun (ops s.hist) [] _ (rinv_mk size so)
+  rw [← hJ.data] at R
+  simpa [Aligned] using R.aligned
+
+/-- a goroutine is inside a critical section that ends with `s.Sync()`'s effect: a client's `Sync`, the final `Sync`
+    of the `Stop` that shuts down, or the flush goroutine processing a tick -/
+def InSync (s : BwsCB.St) : Who → Prop
+  | .client i => s.c.cl i = .inS ∨ s.c.cl i = .inF
+  | .loop => s.c.loop = .inS
+
+def whoAct : Who → Act
+  | .client i => .client i
+  | .loop => .loop
+
+/-- **Sync flushes, all interleavings**: when the section of a `Sync` (by a client, by a tick, or `Stop`'s final one)
+    completes, it has applied the sequential `Bws.sync` to the state produced by exactly the sections that acquired the
+    mutex before it; it returns what `Bws.sync` returns; and if the flush reported no error then every byte accepted by
+    those earlier Writes is in the sink, nothing is buffered, and (once initialised) the sink's last call was `Sync` -/
+theorem sync_flushes_conc (cfg : BwsConc.Cfg) (hlw : cfg.lockedWait = false) (size : Int) (wo : List WOut) (so : List Bool)
+    (s s' : BwsCB.St) (w : Who) (h : Reach cfg (mk size wo so) s) (hin : InSync s w) (hs : BwsCB.step cfg s (whoAct w) = some s') :
+    s.acqs = s.hist ++ [(w, .sync)] ∧ s'.hist = s.hist ++ [(w, .sync)] ∧
+    s'.d = (Bws.sync s.d).1 ∧ s'.rets = s.rets ++ [.errs (errList (Bws.sync s.d).2)] ∧
+    ((Bws.sync s.d).2.1 = none →
+      taken s'.d.sink = laccepted (mk size wo so) (ops s.hist) ∧ s'.d.buf = [] ∧
+      (s.d.init = true → s'.d.sink.getLast? = some .sync)) := by
+  have hJ := J_reach cfg hlw _ (fresh_mk size wo so) s h
+  have hJ' := J_reach cfg hlw _ (fresh_mk size wo so) s' (reach_step cfg _ s s' _ h hs)
+  -- what the step does
+  have key : s'.d = (Bws.sync s.d).1 ∧ s'.hist = s.hist ++ [(w, .sync)] ∧
+      s'.rets = s.rets ++ [.errs (errList (Bws.sync s.d).2)] ∧ inflight s = [(w, .sync)] := by
+    unfold BwsCB.step at hs
+    cases hc : BwsConc.step cfg s.c (whoAct w).ctl with
+    | none => rw [hc] at hs; cases hs
+    | some c' =>
+      rw [hc] at hs; injection hs with hs; subst hs
+      cases w with
+      | loop =>
+        have hl : s.c.loop = .inS := hin
+        have hmu : s.c.mu = .loop := hJ.ctl.mu_loop.2 hl
+        simp [whoAct, effect, hl, fin, lstep, inflight, hmu]
+      | client i =>
+        rcases hin with hpc | hpc
+        · have hmu : s.c.mu = .client i := (hJ.ctl.mu_cl i).2 (by rw [hpc]; rfl)
+          simp [whoAct, effect, hpc, fin, lstep, inflight, hmu, opOf]
+        · have hmu : s.c.mu = .client i := (hJ.ctl.mu_cl i).2 (by rw [hpc]; rfl)
+          simp [whoAct, effect, hpc, fin, lstep, inflight, hmu, opOf]
+  obtain ⟨k1, k2, k3, k4⟩ := key
+  refine ⟨by rw [hJ.lin, k4], k2, k1, k3, fun he => ?_⟩
+  have S := sync_spec s.d
+  have herr : (Bws.sync s.d).1.err = none := by
+    cases hi : s.d.init with
+    | true => rw [← S.err_eq hi]; exact he
+    | false => rw [(S.err_keep hi).1]; exact (hJ.wf.fresh hi).2.2
+  obtain ⟨hb, hl⟩ := sync_section_flushes s.d hJ.wf herr
+  have hst := stream_inv_conc cfg hlw size wo so s' (reach_step cfg _ s s' _ h hs)
+  rw [k1, hb, List.append_nil, k2, ops_snoc, laccepted_append] at hst
+  simp only [laccepted, List.append_nil] at hst
+  exact ⟨by rw [k1]; exact hst, by rw [k1]; exact hb, fun hi => by rw [k1]; exact hl hi⟩
+
+/-- **Stop flushes, all interleavings, byte level** (repaired protocol): at the moment ANY `Stop` call returns on a
+    stopped syncer, the final `Sync` of the call that shut it down has completed: it is a completed section `k` of the
+    linearization, after the section that set `stopped`; the sink has since only grown; and if that flush reported no
+    error, nothing was buffered after it and every byte accepted by Writes that acquired the mutex before the shutdown
+    was signalled (indeed before that final `Sync`) is in the sink now -/
+theorem stop_flushes_conc_bytes (cfg : BwsConc.Cfg) (hlw : cfg.lockedWait = false) (hw : cfg.waitFlushed = true)
+    (size : Int) (wo : List WOut) (so : List Bool) (s s' : BwsCB.St) (i : Nat)
+    (h : Reach cfg (mk size wo so) s) (hs : BwsCB.step cfg s (.client i) = some s')
+    (hret : s'.c.cl i = .retT) (hst : s'.c.stopped = true) :
+    ∃ sF, s'.finalSt = some sF ∧ s'.markLen < s'.finalLen ∧ s'.finalLen ≤ s'.hist.length ∧
+      (ops (s'.hist.take s'.finalLen)).getLast? = some .sync ∧
+      sF = lrun (mk size wo so) (ops (s'.hist.take s'.finalLen)) ∧
+      sF.sink <+: s'.d.sink ∧
+      (sF.err = none → sF.buf = [] ∧
+        taken sF.sink = laccepted (mk size wo so) (ops (s'.hist.take s'.finalLen)) ∧
+        laccepted (mk size wo so) (ops (s'.hist.take s'.markLen)) <+: taken s'.d.sink) := by
+  have hJ := J_reach cfg hlw _ (fresh_mk size wo so) s h
+  have hJ' := J_reach cfg hlw _ (fresh_mk size wo so) s' (reach_step cfg _ s s' _ h hs)
+  have hctl := step_ctl cfg s s' _ hs
+  have hfc : s'.c.flushedClosed = true := BwsConc.ret_flushedClosed cfg hw s.c s'.c i hJ.ctl hctl hret hst
+  cases hF : s'.finalSt with
+  | none => have := (hJ'.fin_none hF).1; rw [hfc] at this; cases this
+  | some sF =>
+    obtain ⟨_, b, c, d, e⟩ := hJ'.fin_some sF hF
+    have hsplit : ops s'.hist = ops (s'.hist.take s'.finalLen) ++ ops (s'.hist.drop s'.finalLen) := by
+      simp only [ops, ← List.map_append, List.take_append_drop]
+    have hpre : sF.sink <+: s'.d.sink := by
+      rw [hJ'.data, hsplit, lrun_append, ← d]; exact lrun_sink_prefix _ _
+    refine ⟨sF, rfl, c, b, e, d, hpre, fun herr => ?_⟩
+    -- the last section of the prefix is a Sync: its effect
+    obtain ⟨pre, hpreq⟩ : ∃ pre, ops (s'.hist.take s'.finalLen) = pre ++ [.sync] :=
+      List.getLast?_eq_some_iff.mp e
+    have hsF : sF = (Bws.sync (lrun (mk size wo so) pre)).1 := by rw [d, hpreq, lrun_snoc]; rfl
+    have hwf : Wf (lrun (mk size wo so) pre) := wf_lrun _ _ (wf_mk size wo so)
+    have hb : sF.buf = [] := by rw [hsF]; exact (sync_section_flushes _ hwf (by rw [← hsF]; exact herr)).1
+    have hct := content_lrun (ops (s'.hist.take s'.finalLen)) (mk size wo so) (wf_mk size wo so)
+    rw [← d] at hct
+    have htk : taken sF.sink = laccepted (mk size wo so) (ops (s'.hist.take s'.finalLen)) := by
+      simpa [content, hb, mk] using hct
+    refine ⟨hb, htk, ?_⟩
+    have hmk : s'.hist.take s'.markLen = (s'.hist.take s'.finalLen).take s'.markLen := by
+      rw [List.take_take, Nat.min_eq_left (Nat.le_of_lt c)]
+    have hsp : ops (s'.hist.take s'.finalLen) = ops (s'.hist.take s'.markLen) ++ ops ((s'.hist.take s'.finalLen).drop s'.markLen) := by
+      rw [hmk]; simp only [ops, ← List.map_append, List.take_append_drop]
+    have h1 : laccepted (mk size wo so) (ops (s'.hist.take s'.markLen)) <+: taken sF.sink := by
+      rw [htk, hsp, laccepted_append]; exact List.prefix_append _ _
+    exact h1.trans (taken_prefix hpre)
+
+/-- **crash prefix, all interleavings** (reliable sink): whatever prefix of its calls the sink has completed when the
+    process dies, at any point of any schedule, its content is cut at a boundary between Writes (taken in acquisition
+    order) and contains every Write that acquired the mutex before any `Sync` section (client's, tick's or `Stop`'s
+    final one) that had completed by then -/
+theorem crash_prefix_conc (cfg : BwsConc.Cfg) (hlw : cfg.lockedWait = false) (size : Int) (so : List Bool)
+    (s : BwsCB.St) (h : Reach cfg (mk size [] so) s) (pre : List Ev) (hp : pre <+: s.d.sink) :
+    (∃ k, taken pre = ((lwritesOf (ops s.hist)).take k).flatten) ∧
+    (∀ h1 w h2, s.hist = h1 ++ (w, .sync) :: h2 →
+        (lrun (mk size [] so) (ops (h1 ++ [(w, .sync)]))).sink <+: pre →
+        (lwritesOf (ops h1)).flatten <+: taken pre) := by
+  have hJ := J_reach cfg hlw _ (fresh_mk size [] so) s h
+  have R := rinv_lrun (ops s.hist) [] _ (rinv_mk size so)
+  rw [← hJ.data] at R
+  refine ⟨by simpa using aligned_prefix R.aligned R.full pre hp, ?_⟩
+  intro h1 w h2 _ hpre
+  have R1 := rinv_lrun (ops h1) [] _ (rinv_mk size so)
+  have hsy := sync_reliable _ R1.rel (fun hi => (R1.wf.fresh hi).1)
+  have hrun : lrun (mk size [] so) (ops (h1 ++ [(w, .sync)])) = (Bws.sync (lrun (mk size [] so) (ops h1))).1 := by
+    rw [ops_snoc, lrun_snoc]; rfl
+  have hct := content_lrun (ops (h1 ++ [(w, .sync)])) (mk size [] so) (wf_mk size [] so)
+  rw [hrun] at hct hpre
+  have hacc : laccepted (mk size [] so) (ops (h1 ++ [(w, .sync)])) = (lwritesOf (ops h1)).flatten := by
+    rw [laccepted_reliable _ [] _ (rinv_mk size so), ops_snoc, lwritesOf_append]; simp [lwritesOf]
+  rw [hacc] at hct
+  have hc0 : content (mk size [] so) = [] := rfl
+  have hb := hsy.2.2.1
+  rw [hc0, List.nil_append] at hct
+  unfold content at hct
+  rw [hb, List.append_nil] at hct
+  rw [← hct]
+  exact taken_prefix hpre
+
+/-! ## non-vacuity: three goroutines — a Write larger than the buffer racing a tick and a Stop -/
+
+/-- client 0 writes "ab" (initialises, size 4); then client 1 calls Write of 5 bytes, a tick arrives and client 2 calls
+    Stop, all three pending at once.  Schedule A: the big Write gets the mutex first, then the tick's Sync, then Stop. -/
+def raceA : List Act :=
+  [.write 0 [97, 98], .client 0, .client 0,
+   .write 1 [1, 2, 3, 4, 5], .tick, .stop 2,
+   .client 1, .client 1,                 -- big Write: flushes "ab", then goes to the sink in one piece
+   .loop, .loop,                         -- the tick's Sync
+   .client 2, .client 2,                 -- Stop's first section; then it waits for `done`
+   .loop,                                -- the flush goroutine returns
+   .client 2, .client 2, .client 2, .client 2, .client 2]   -- final Sync, close(flushed), return
+
+example : ((runActs { n := 3 } (init (mk 4 [] [])) raceA).map fun s => (ops s.acqs, s.d.sink, s.d.buf, s.rets)) =
+    some ([.write [97, 98], .write [1, 2, 3, 4, 5], .sync, .mark, .sync],
+          [.write [97, 98] 2, .write [1, 2, 3, 4, 5] 5, .sync, .sync], [],
+          [.wrote 2 none, .wrote 5 none, .errs [], .nothing, .errs []]) := by decide
+
+/-- Schedule B: the tick's Sync wins, Stop's first section comes next, the big Write lands between the two halves of
+    Stop and is flushed by Stop's final Sync section (it is larger than the buffer, so it went straight to the sink) -/
+def raceB : List Act :=
+  [.write 0 [97, 98], .client 0, .client 0,
+   .write 1 [1, 2, 3, 4, 5], .tick, .stop 2,
+   .loop, .loop,                         -- the tick's Sync flushes "ab"
+   .client 2, .client 2,                 -- Stop's first section
+   .client 1, .client 1,                 -- the big Write, after the shutdown was signalled
+   .loop,
+   .client 2, .client 2, .client 2, .client 2, .client 2]
+
+example : ((runActs { n := 3 } (init (mk 4 [] [])) raceB).map fun s => (ops s.acqs, s.d.sink, s.markLen, s.finalLen)) =
+    some ([.write [97, 98], .sync, .mark, .write [1, 2, 3, 4, 5], .sync],
+          [.write [97, 98] 2, .sync, .write [1, 2, 3, 4, 5] 5, .sync], 3, 5) := by decide
+
+/-- the hypotheses of `sync_flushes_conc` and `stop_flushes_conc_bytes` are satisfiable on these schedules -/
+example : ((runActs { n := 3 } (init (mk 4 [] [])) (raceA.take 9)).map fun s => (s.c.loop, (Bws.sync s.d).2.1)) =
+    some (.inS, none) := by decide
+
+example : ((runActs { n := 3 } (init (mk 4 [] [])) (raceA.take 16)).bind fun s =>
+      (BwsCB.step { n := 3 } s (.client 2)).map fun s' => (s'.c.cl 2, s'.c.stopped, s'.finalSt.map (·.err))) =
+    some (.retT, true, some none) := by decide
+
+end ConcBytes
 
 end ZapVerif.C12
 
